@@ -563,6 +563,9 @@ def binop(ip, st, op, a, b):
         else:
             raise Unsupported("int op %s" % type(op).__name__)
         return
+    if isinstance(op, ast.Mult) and {ka, kb} == {"int", "str"}:
+        yield st, opaque_str("repeat")          # "-" * n (console decoration)
+        return
     if isinstance(op, ast.Mult) and {ka, kb} == {"int", "bytes"} and not is_sym(a if ka == "bytes" else b):
         raise Unsupported("bytes * symbolic int")
     raise Unsupported("binop %s on %s, %s" % (type(op).__name__, ka, kb))
